@@ -234,3 +234,64 @@ if __name__ == '__main__':
     import json
     import sys
     print(json.dumps(run_history(sys.argv[1], json.loads(sys.stdin.read()))))
+
+
+# ----------------------------------------------------------------------------- renderer histories
+RENDER_DIALECTS = ['mysql', 'postgresql', 'postgres', 'sqlite', 'mssql', 'oracle', 'Snowflake',
+                   'class:mysql', 'class:postgresql', 'class:sqlite', 'class:mssql', 'class:oracle']
+RENDER_SQL = [
+    'select cast(price as float) as p from t', 'insert into t (a, b) values (1, 2), (3, 4)', 'select * from t where n = 1', 'select * from t where flag = true',
+    'select * from t where x = 1.0', "select * from t where s = '1' and n = 0 and f = false", 'select * from t where a in (1, true, 1.0)',
+    'select a from t order by a desc nulls last limit 1 offset 0', 'create table t (a serial, b int)', 'select cast(a as int), cast(b as varchar) from t',
+    "update t set a = 1, b = true where c = 1.0", "select 'a%b', ':x' from t", 'select * from t1 left join t2 on t1.id = t2.id', 'select cast(a as foo) from t',
+    'select date_add(a, interval 1 day) from t', 'select a, count(*) from t group by a having count(*) > 1',
+]
+
+
+def render_ops():
+    return [(d, q) for d in RENDER_DIALECTS for q in RENDER_SQL]
+
+
+def make_render(dkey):
+    from mindsdb_sql.render.sqlalchemy_render import SqlalchemyRender
+    if dkey.startswith('class:'):
+        import importlib
+        mod = importlib.import_module('sqlalchemy.dialects.' + dkey[6:])
+        return SqlalchemyRender(mod.dialect)
+    return SqlalchemyRender(dkey)
+
+
+def observe_render(op, render=None):
+    dkey, sql = op
+    tree = tree_of(sql)
+    if isinstance(tree, Exception):
+        return ('noparse', type(tree).__name__)
+    try:
+        r = render if render is not None else make_render(dkey)
+        return ('sql', canon(r.get_string(tree, with_failback=True)))
+    except Exception as e:
+        return ('exc', type(e).__name__, str(e)[:200])
+
+
+def _rref_one(op):
+    return observe_render(tuple(op))
+
+
+def render_references(ops):
+    import multiprocessing as mp
+    import mindsdb_sql.render.sqlalchemy_render  # noqa: F401   (warm imports only)
+    from mindsdb_sql.parser.dialects.mindsdb.parser import MindsDBParser  # noqa: F401
+    global _ref_one
+    saved = _ref_one
+    _ref_one = _rref_one
+    try:
+        ctx = mp.get_context('fork')
+        lanes = [ops[k::16] for k in range(16)]
+        with ctx.Pool(16) as pool:
+            res = pool.map(_lane, lanes, chunksize=1)
+    finally:
+        _ref_one = saved
+    out = [None] * len(ops)
+    for k, lane in enumerate(res):
+        out[k::16] = lane
+    return out
